@@ -257,8 +257,14 @@ class Ctx:
                 eng.prove(vand(model.eval(envh)), "C03/model-rejects-a-feasible-semi-active-schedule",
                           f"history {h.history}")
         else:
-            eng.fail("C03/model-variables-do-not-match-the-instance" if self.n_solves > 1 and self.sp["reuse"]
-                     else "C03/unexpected-model-variables", f"{[str(v.name) for v in model.vars]}")
+            named = "makespan" in role and all(("start", o) in role and ("end", o) in role for o in range(desc.n_ops))
+            if named:
+                # every operation of this instance has its variables, but the model holds more: left-overs of an earlier solve()
+                eng.fail("C03/model-contains-variables-that-do-not-belong-to-the-instance",
+                         f"{len(model.vars)} variables for {desc.n_ops} operations")
+            else:
+                # the variable-to-operation mapping rests on the names the library gives (an encoding matter, not the property)
+                raise E.Unsupported("cp_model stub: cannot map the model's variables to operations by name")
         # 1(c): objective is the minimised makespan variable
         if model.obj is None or model.obj[0] != "min" or not isinstance(model.obj[1], Var) or \
                 model.obj[1].idx != role.get("makespan"):
